@@ -563,6 +563,11 @@ fn specs(tier: Tier) -> Vec<Spec> {
                 continue;
             }
             v.push(base(vec![V::List(vec![size; count]), V::U32]));
+            // the list is the first thing in the answer (concrete paths), as a read and as a priming report
+            if tier == Tier::Thorough || size % 26 == 0 {
+                v.push(Spec { paths: 1, ..base(vec![V::List(vec![size; count]), V::U32]) });
+                v.push(Spec { paths: 2, subscribe: true, ..base(vec![V::U32, V::List(vec![size; count])]) });
+            }
             if count <= 3 {
                 v.push(base(vec![V::Bytes(700), V::List(vec![size; count])]));
             }
